@@ -25,6 +25,12 @@ NA = {
 }
 
 CHECKS = {
+ "C05": dict(
+   category="exploration",
+   text="Seeded simulation of the decomposer: one decider owns the generated closed Clifford+T diagram and configuration and, through cfg-gated seams, every ambient RNG draw of the random drivers, every RandomState key of the dynamic-T driver, and for parallel executions the worker count (1..16), the execution order of the tasks of every (nested) fork-join region and their workers. Every scenario runs sequentially and in parallel under two schedules; results are compared exactly (Z[omega]/2^k) with an independent evaluator of the original diagram, every decomposition step and component split is checked for conservation while the run proceeds, and sequential/parallel results are compared with each other. Sub-batches: saved Clifford terms of open diagrams, and apply_decomp on embedded sites. Sampling, not enumeration.",
+   design_ref="DESIGN.md §2.3, §4 C05",
+   note="Trusted: the harness evaluator/ring (cross-checked against the gate simulator on harness-translated circuits at every start), the whole-task fork-join model (complete while tasks share no mutable state; a syntactic audit of quizx/src for Mutex/Atomic/RefCell/unsafe/static mut runs with every check and is reported in the evidence). Bounds: <=14 spiders, T-count <=10 quick / <=14 thorough, circuits <=4 qubits. Budget overruns are reported as inconclusive (exit 2 above 1%), never as violations: the property does not state termination.",
+   technique="deterministic simulation: seeded decider behind RNG / hash-order / fork-join seams, exact-evaluator oracle + per-step conservation invariants + sequential/parallel twin, shrinking + replay files"),
  "C18": dict(
    category="exploration",
    text="Seeded simulation of move histories: the simulator is the caller of the existing `impl Rng` seam (and of the ambient-RNG seam in rank_decomp), so every internal choice of every move and of the annealer is a recorded decision. After every operation the tree is checked structurally by the harness, against is_valid_for_graph, and its cached width/score against a cache-cleared recomputation and a brute-force F2 cut-rank oracle. Sampling, not enumeration: a clean batch is evidence within the stated bounds.",
@@ -35,7 +41,6 @@ CHECKS = {
 
 PENDING = {
  "C03": "claimed by DESIGN.md (CLI clause) but its check is not built yet at this commit; not claimed until it is",
- "C05": "claimed by DESIGN.md but its check is not built yet at this commit; not claimed until it is",
  "C06": "claimed by DESIGN.md but its check is not built yet at this commit; not claimed until it is",
  "C13": "claimed by DESIGN.md but its check is not built yet at this commit; not claimed until it is",
  "C19": "claimed by DESIGN.md but its check is not built yet at this commit; not claimed until it is",
